@@ -765,7 +765,8 @@ class Exporter {
         noteCall(FD, CE->getExprLoc(), "call");
         std::string n = FD->getNameAsString();
         if (n == "memcpy" || n == "memmove" || n == "realloc" || n == "__builtin_memcpy" ||
-            n == "__builtin_memmove" || n == "__builtin_memset" || n == "memset" || n == "__builtin_realloc") {
+            n == "__builtin_memmove" || n == "__builtin_memset" || n == "memset" || n == "__builtin_realloc" || n == "memcmp" ||
+            n == "__builtin_memcmp" || n == "bcmp") {
           json::Object b;
           b["name"] = n;
           b["l"] = fullLocStr(CE->getExprLoc());
